@@ -122,6 +122,21 @@ pub fn run() -> i32 {
             );
         }
     }
+    let crow = ro["drop_by_construction"].as_array().cloned().unwrap_or_default();
+    chk(crow.iter().filter(|r| r["constructed"].as_bool() == Some(true)).count() >= 5, "servers could be constructed in the listed ways (http_unix, Server::new, from_listener; UNIX and TCP)", &mut real_fail);
+    for r in &crow {
+        if r["constructed"].as_bool() == Some(true) {
+            let how = r["constructed_by"].as_str().unwrap_or("");
+            if r.get("path_removed_after_ms").is_some() {
+                chk(r["served_with_peer_address_none"].as_bool() == Some(true), &format!("UNIX server constructed by {}: a request is served and its peer address is None", how), &mut real_fail);
+                chk(r["path_removed_after_ms"].as_u64().is_some(), &format!("UNIX server constructed by {}: the socket path is removed within 3 s after the drop", how), &mut real_fail);
+            } else {
+                chk(r["served"].as_bool() == Some(true), &format!("TCP server constructed by {}: a request is served", how), &mut real_fail);
+                chk(r["listening_socket_gone_after_ms"].as_u64().is_some(), &format!("TCP server constructed by {}: the listening socket is gone within 3 s after the drop", how), &mut real_fail);
+            }
+            chk(r["connect_refused_after_drop"].as_bool() == Some(true), &format!("server constructed by {}: a connection attempt after the drop is refused", how), &mut real_fail);
+        }
+    }
     let rows = ro["tcp_drop_by_bind_address"].as_array().cloned().unwrap_or_default();
     chk(rows.iter().filter(|r| r["bound"].as_bool() == Some(true)).count() >= 8, "the server could be bound on the IPv4 bind-address classes (127.0.0.1, 127.0.0.2, 127.1.2.3, 0.0.0.0)", &mut real_fail);
     for r in &rows {
@@ -152,7 +167,7 @@ pub fn run() -> i32 {
     }
     for m in report["real_only_failures"].as_array().unwrap() {
         let what = m.as_str().unwrap_or("");
-        let prop = if what.contains("peer address") { "C02" } else if what.contains("recv") { "C17" } else if what.contains("reset at once") { "C15" } else { "C20" };
+        let prop = if what.contains("peer address:") { "C02" } else if what.contains("recv") { "C17" } else if what.contains("reset at once") { "C15" } else { "C20" };
         println!("VIOLATION property={} replay={}", prop, dir.join("evidence").join("conformance.json").display());
         println!("  on kernel sockets: {} does not hold", what);
     }
